@@ -234,6 +234,11 @@ def dequeue (tg : String → Nat) (t n now : Nat) (order : List String) (q : Que
 def addToProposalQHook (now : Nat) (surfaced : List (List Proposal)) (q : Queue) : Queue :=
   surfaced.foldl (fun q round => enqueue now round q) q
 
+/-- guard of `ocr3Plugin.Observation`: the pre-build hooks (remove-from-staging, remove-from-metadata,
+add-to-proposalq) run for EVERY call that carries a previous outcome — whether or not that outcome was
+seen before: the node's pending sets change between rounds. -/
+def observationAppliesOutcome (prevNotNil : Bool) (prevLen : Nat) : Bool := prevNotNil || decide (prevLen ≠ 0)
+
 /-! ### histories -/
 
 inductive Op where
